@@ -61,6 +61,8 @@ type Contract struct {
 	Cases       []*Clause // case split: the function is verified once under each case assumption
 	Witnesses   []*Clause // candidate witnesses (over locals) for exists() in postconditions
 	Volatile    []string  // field suffixes (e.g. ".state.v") that other goroutines may write at any time
+	PostsOnly   bool // only the postconditions (and loop invariants) are claimed, not the safety obligations
+	Partial     bool // paths that reach a construct outside the subset are abandoned; every postcondition must be vacuous there
 	WrapsSigned bool      // signed arithmetic of this function wraps by design (no overflow obligations)
 	IntOnly     bool      // use the contract only from int-mode callers; bv-mode callers inline the body
 }
@@ -75,6 +77,7 @@ type SpecFunc struct {
 	Rec      bool
 	Uninterp bool
 	Macro    bool
+	Pkg      string    // package path in whose scope the parameter types are resolved
 	Axioms   []*Clause // assumed facts about an uninterpreted function (trusted base)
 	Src      string
 }
@@ -122,7 +125,7 @@ func newContractDB() *ContractDB {
 	return &ContractDB{Funcs: map[string]*Contract{}, Specs: map[string]*SpecFunc{}, Lemmas: map[string]*Lemma{}, Consts: map[string]string{}, Ghosts: map[string]string{}}
 }
 
-var keywordRe = regexp.MustCompile(`^(package|axiom|func|requires|ensures|modifies|mode|loop|invariant|decreases|hint|unfold|use|induct|may_panic|trusted|abstracts|inline|intonly|wraps_signed|volatile|witness|cases|property|spec|lemma|struct|global|ghost|noframe|const)\b`)
+var keywordRe = regexp.MustCompile(`^(package|axiom|func|requires|ensures|modifies|mode|loop|invariant|decreases|hint|unfold|use|induct|may_panic|trusted|abstracts|inline|intonly|partial|posts_only|wraps_signed|volatile|witness|cases|property|spec|lemma|struct|global|ghost|noframe|const)\b`)
 
 // stripComment removes a trailing `// ...` that is outside string literals
 func stripComment(s string) string {
@@ -468,7 +471,7 @@ func (db *ContractDB) LoadFile(path, pkgPath string, trusted bool) error {
 			cur, curLemma, curLoop = nil, l, nil
 		case "spec":
 			// spec [rec|uninterp] name(params) T = body
-			sf := &SpecFunc{Src: st.src}
+			sf := &SpecFunc{Src: st.src, Pkg: curPkg}
 			r := rest
 			if strings.HasPrefix(r, "rec ") {
 				sf.Rec = true
@@ -650,6 +653,10 @@ func (db *ContractDB) LoadFile(path, pkgPath string, trusted bool) error {
 				cur.IntOnly = true
 			case "wraps_signed":
 				cur.WrapsSigned = true
+			case "partial":
+				cur.Partial = true
+			case "posts_only":
+				cur.PostsOnly = true
 			case "volatile":
 				for _, f := range strings.Split(rest, ",") {
 					if f = strings.TrimSpace(f); f != "" {
